@@ -4,8 +4,12 @@
 //! Usage: `cvh <mode> <jobs.ndjson> <out.ndjson>`; each input line is one job, each output
 //! line the observation for that job. Modes are documented in the respective modules.
 
+mod inplace;
 mod solver;
 mod wrapdb;
+
+#[global_allocator]
+static ALLOC: inplace::WatchAlloc = inplace::WatchAlloc;
 
 use std::io::{BufRead, BufReader, BufWriter, Write};
 
@@ -37,6 +41,7 @@ fn main() {
         }
         let res = match mode {
             "solve" => solver::run_job(&line),
+            "inplace" => inplace::run_job(&line),
             _ => {
                 eprintln!("unknown mode {}", mode);
                 std::process::exit(2);
